@@ -1050,11 +1050,13 @@ func translateMain(root, targetsPath string) {
 		}
 		byDir[t.dir] = append(byDir[t.dir], t.key)
 	}
+	// a target outside the subset: reported loudly (stderr, exit 3); the functions that do translate are still
+	// printed, so that only the obligations about the missing ones break
+	for _, e := range errs {
+		fmt.Fprintln(os.Stderr, e)
+	}
 	if len(errs) > 0 {
-		for _, e := range errs {
-			fmt.Fprintln(os.Stderr, e)
-		}
-		os.Exit(2)
+		defer os.Exit(3)
 	}
 	var w bytes.Buffer
 	fmt.Fprintf(&w, "-- generated by /verif/extract -translate from %s; regenerated by every check run, never edited\n", root)
